@@ -18,7 +18,16 @@ Correspondence (this file + impl/impl_c19.py + coq/model/FmtSpecTie.v):
      _render_image, and equality of format()'s string with what draw() prints for the
      documented-equivalent parameters — against model and documentation, inside Coq;
   3. a BFS for a shortest word distinguishing model and documented grammar (the replay
-     when an equivalence theorem no longer checks), confirmed on the real format().
+     when an equivalence theorem no longer checks), confirmed on the real format();
+  4. environments (impl/impl_c19env.py + coq/model/FmtEnv.v, FmtEnvTie.v): the property speaks
+     of format() in whatever process calls it.  The same specifiers (explicit padding
+     sizes below / at / above the terminal size, absent and zero ones, every alignment,
+     sentences and near-sentences) go through format(image, spec), ImageIterator(.., spec)
+     and str(image) in CHILD PROCESSES whose standard streams are every chosen combination
+     of pipes and one pseudo-terminal (window size = the terminal size of the case); the
+     geometry MEASURED on the returned string, the outcome class and equality with the
+     explicit-parameter route are judged inside Coq against the model in that environment
+     (FmtEnv.impl_format) and against the documented meaning (FmtEnv.geom_ok).
 """
 from __future__ import annotations
 
@@ -28,11 +37,12 @@ import re
 import core
 
 LEVEL = "proof"
-EXTRA_TARGETS = ["model/FmtSpecTie.vo"]
+EXTRA_TARGETS = ["model/FmtSpecTie.vo", "model/FmtEnvTie.vo"]
 STYLES = ["block", "kitty", "iterm2"]
 COQ_STYLE = {"block": "Block", "kitty": "Kitty", "iterm2": "ITerm2"}
 HEADER = ("From Coq Require Import List NArith ZArith.\nImport ListNotations.\n"
-          "From TI Require Import lib.Re model.FmtSpec model.FmtSpecTie.\nOpen Scope nat_scope.\n")
+          "From TI Require Import lib.Re model.FmtSpec model.FmtSpecTie model.FmtEnv model.FmtEnvTie.\n"
+          "Open Scope nat_scope.\n")
 TERMS = [[80, 30], [100, 50], [12, 5], [3, 3]]
 
 # --------------------------------------------------------------------- generated data
@@ -44,7 +54,25 @@ def read_gen():
     reps = [[int(x) for x in grp.split(";") if x.strip()] for grp in re.findall(r"\[([^\[\]]*)\]", m.group(1))]
     ncls = int(re.search(r"Definition ncls : nat := (\d+)", txt).group(1))
     assert len(reps) == ncls
-    return reps, "translation_refused : bool := true" in txt
+    table = [(int(a), int(b), int(c)) for a, b, c in
+             re.findall(r"\((\d+), (\d+), (\d+)%nat\)", txt.split("Definition class_table")[1].split("].")[0])]
+    return reps, "translation_refused : bool := true" in txt, table
+
+
+# Characters that belong to no field of the grammar but that a regular-expression engine, int(),
+# float() or str.strip() treat specially (line ends for `$`, white space; non-ASCII
+# decimal digits already form a class of their own with two representatives): each is added to the representatives of ITS class of the generated table (normally the
+# "other" class), so that the exhaustive part has them at every position, the last included.
+EXTRA_REPS = ["\n", "\r", "\t", " "]
+
+
+def with_extra_reps(reps, table):
+    reps = [list(r) for r in reps]
+    for ch in EXTRA_REPS:
+        k = next((c for lo, hi, c in table if lo <= ord(ch) <= hi), None)
+        if k is not None and ord(ch) not in reps[k]:
+            reps[k].append(ord(ch))
+    return reps
 
 
 # --------------------------------------------------------------------- Coq terms
@@ -239,18 +267,22 @@ def enum_jobs(style, alphabet, length, njobs, detail=True):
              "prefixes": prefixes[k::njobs], "detail": detail} for k in range(njobs)]
 
 
-def exhaustive(ctx, reps, out):
+def exhaustive(ctx, reps, out, table=()):
     """Fills out (dict) with failures/mismatches/errors/histogram; returns accepted cases."""
     first = [chr(r[0]) for r in reps]
-    both = [chr(c) for r in reps for c in r]
-    cls_of = {chr(c): k for k, r in enumerate(reps) for c in r}
+    reps_b = with_extra_reps(reps, table)
+    both = [chr(c) for r in reps_b for c in r]
+    cls_of = {chr(c): k for k, r in enumerate(reps_b) for c in r}
+    out["extra"]["exhaustive_alphabet"] = {
+        "short strings": [f"U+{ord(c):04X}" for c in both], "longer strings": [f"U+{ord(c):04X}" for c in first]}
     if ctx.quick:
         L_both, L_single = 4, 5
     else:
         L_both, L_single = 5, 7
     out["extra"]["exhaustive_bound"] = (
         f"all strings of length <= {L_both} over {len(both)} characters (two representatives of every "
-        f"multi-member class) and of length {L_both + 1}..{L_single} over {len(first)} characters (one per class), "
+        f"multi-member class, plus line feed, carriage return, tab and space in their classes) "
+        f"and of length {L_both + 1}..{L_single} over {len(first)} characters (one per class), "
         f"per style; accepted strings judged individually: "
         + ("all of length <= 3, one per class word of length 4, one per three class words of length 5"
            if ctx.quick else "all"))
@@ -258,7 +290,7 @@ def exhaustive(ctx, reps, out):
     for st in STYLES:
         for n in range(0, L_single + 1):
             alpha = both if n <= L_both else first
-            per = 4 if n <= 4 else (16 if n == 5 else (64 if n == 6 else 256))
+            per = 4 if n <= 3 else (16 if n <= 5 else (64 if n == 6 else 256))
             for j in enum_jobs(st, alpha, n, per):
                 jobs.append(j)
                 meta.append((st, n))
@@ -289,7 +321,7 @@ def exhaustive(ctx, reps, out):
     out["evaluations"] += total
     out["histogram"]["enumerated_by_style_and_length [accepted, StyleError, ValueError]"] = {
         f"{st}:{n}": counts[(st, n)] for st in STYLES for n in range(L_single + 1)}
-    w_both = [len(r) for r in reps]
+    w_both = [len(r) for r in reps_b]
     w_single = [1] * len(reps)
     acc_cases = []
     body = ""
@@ -382,18 +414,249 @@ def shrink(style, spec, term):
     return cur
 
 
+# --------------------------------------------------------------------- environments
+
+ENVS_QUICK = [[0, 0, 0], [1, 1, 1], [1, 0, 1], [0, 1, 0]]        # [stdin, stdout, stderr] on the terminal?
+ENVS_ALL = [[i, o, e] for i in (0, 1) for o in (0, 1) for e in (0, 1)]
+ENV_TERMS = [[80, 30], [100, 50], [12, 5], [3, 3], [200, 60], [40, 10]]
+ROUTE_NAMES = {0: "format(image, spec)", 1: "next(ImageIterator(image, 1, spec))", 2: "str(image)"}
+ENV_TAILS = {
+    "block": ["", "", "#", "##", "#.5", "#00ff7F"],
+    "kitty": ["", "", "#", "+L", "+W", "#.25+Wz-3m1c0", "##+z5", "+m1c9"],
+    "iterm2": ["", "", "#", "+L", "+W", "+A", "#.25+Wm1c0", "##+Am0", "+m1c9"],
+}
+
+
+def env_name(bits):
+    if not any(bits):
+        return "every standard stream on a pipe"
+    if all(bits):
+        return "stdin, stdout and stderr on a terminal"
+    on = [n for n, b in zip(("stdin", "stdout", "stderr"), bits) if b]
+    off = [n for n, b in zip(("stdin", "stdout", "stderr"), bits) if not b]
+    return f"{' and '.join(on)} on a terminal, {' and '.join(off)} on a pipe"
+
+
+def env_specs(rng, style, term, n_random):
+    """Specifiers whose explicit padding sizes sit below, at and above the terminal size `term`
+    (and absent / zero ones), every alignment pair, plus random sentences and near-sentences."""
+    tc, tl = term
+    widths = ["", "0", "00", "1", "2", "3", str(max(tc - 1, 1)), str(tc), str(tc + 1), "0" + str(tc + 1),
+              str(tc + 20), str(2 * tc + 1), str(rng.randrange(1, 3 * tc + 2))]
+    heights = [None, "0", "1", "2", str(max(tl - 3, 1)), str(max(tl - 2, 1)), str(max(tl - 1, 1)), str(tl),
+               str(tl + 1), "00" + str(tl + 2), str(tl + 7), str(rng.randrange(1, 2 * tl + 2))]
+    tails = ENV_TAILS[style]
+
+    def vpart(h):
+        if h is None:
+            return rng.choice(["", "", ".^", ".-", "._"])
+        return "." + rng.choice(["", "^", "-", "_"]) + h
+
+    specs = []
+    for w in widths:
+        specs.append(rng.choice(["", "<", "|", ">"]) + w + vpart(rng.choice(heights)) + rng.choice(tails))
+    for h in heights:
+        specs.append(rng.choice(["", "<", "|", ">"]) + rng.choice(widths) + vpart(h) + rng.choice(tails))
+    for ha in "<|>":
+        for va in "^-_":
+            specs.append(f"{ha}{tc + rng.choice([1, 2, 3, 4])}.{va}{tl + rng.choice([1, 2, 3])}")
+    alphabet = list("<|>0189.^-_#af+LWAzmc \n\r\t")
+    for i in range(n_random):
+        sp = gen_sentence(rng, style)
+        if i % 2:
+            sp = gen_near(rng, sp, alphabet)
+        specs.append(sp)
+    specs = [sp for sp in dict.fromkeys(specs) if not too_big(sp, 400_000)]
+    return specs
+
+
+def gcase_term(style, spec, term, env, route, o):
+    b = ("false", "true")
+    return ("{| q_sty := %s; q_spec := %s; q_cols := %d%%Z; q_lines := %d%%Z; q_in := %s; q_out := %s; q_err := %s; "
+            "q_route := %d; q_rc := %d%%Z; q_rl := %d%%Z; q_kind := %d; q_geom := %s; q_x := %s; q_same := %d |}") % (
+        COQ_STYLE[style], nlist([ord(c) for c in spec]), term[0], term[1], b[env[0]], b[env[1]], b[env[2]],
+        route, o["rs"][0], o["rs"][1], o["k"], nlist(o.get("geom", []), "Z"), nlist(o.get("x", []), "Z"),
+        o.get("same", 0))
+
+
+def check_env(jobs, tag="c19e"):
+    """jobs: [{"style", "term", "env", "specs"}].  Jobs with the same environment and terminal size
+    share one child process.  Every observation is judged in Coq.
+    Returns (cases [(job, spec, route, observation)], codes, errors, anomalies)."""
+    if not jobs:
+        return [], [], [], []
+    groups = {}
+    for j in jobs:
+        groups.setdefault((tuple(j["term"]), tuple(j["env"])), []).append(j)
+    djobs = [{"term": list(t), "env": list(e), "batches": [{"style": j["style"], "specs": j["specs"]} for j in js]}
+             for (t, e), js in groups.items()]
+    res = core.run_impl_parallel("impl_c19env.py", djobs, chunk=max(1, (len(djobs) + core.NCPU - 1) // core.NCPU),
+                                 timeout=3000)
+    cases, errors, anomalies = [], [], []
+    for dj, js, r in zip(djobs, groups.values(), res):
+        if "error" in r:
+            errors.append(f"environment driver, terminal {dj['term']} streams {dj['env']}: {r['error'][-1200:]}")
+            continue
+        want = {"isatty": dj["env"], "os_isatty": dj["env"], "active": int(any(dj["env"])), "size": dj["term"]}
+        if r["seen"] != want:
+            errors.append(f"environment not established: wanted {want}, the child saw {r['seen']}")
+            continue
+        for job, b in zip(js, r["batches"]):
+            for spec, o in zip(job["specs"], b["obs"]):
+                cases.append((job, spec, 0, o["f"]))
+                cases.append((job, spec, 1, o["i"]))
+                if o["f"].get("fx"):
+                    anomalies.append((job, spec, "state touched by a rejected specifier: " + ", ".join(o["f"]["fx"])))
+                for key in "fi":
+                    if o[key]["k"] == 9:
+                        anomalies.append((job, spec, "undocumented exception " + o[key].get("exc", "")))
+            cases.append((job, "", 2, b["str"]))
+            for fx in b["final"]:
+                anomalies.append((job, "(whole batch)", fx))
+    terms = [gcase_term(j["style"], sp, j["term"], j["env"], rt, o) for j, sp, rt, o in cases]
+    bad, errs = core.coq_shards(tag, HEADER, terms, "gcase", "gbad cases", shard=300)
+    codes = [0] * len(cases)
+    for i, c in bad:
+        codes[i] = c
+    return cases, codes, errors + errs, anomalies
+
+
+def env_failure(job, spec, route, o, code, elsewhere=""):
+    st, term, env = job["style"], job["term"], job["env"]
+    return {
+        "signature": core.sig({"spec": spec, "route": route, "tty": env}),
+        "what": (f"{ROUTE_NAMES[route]} with spec {spec!r} on {COQ_STYLE[st]}Image, {env_name(env)}, terminal "
+                 f"{term[0]}x{term[1]}: outcome {o['k']} (0 = a string), measured [lines, width, top, left] = {o.get('geom')} "
+                 f"for a {o['rs'][0]}x{o['rs'][1]} render, documented explicit parameters [h, pad_width, v, pad_height] = "
+                 f"{o.get('x')}, same string as the explicit-parameter route: {o.get('same')} — contradicts the documented "
+                 f"meaning (check code {code}){elsewhere}"),
+        "replay": {"kind": "env", "style": st, "spec": spec, "term": term, "env": env, "route": route,
+                   "observed": o, "code": code},
+    }
+
+
+def shrink_env(job, spec, route):
+    """Greedy deletion of characters while the same route in the same environment still contradicts
+    the documentation."""
+    cur = spec
+    for _ in range(10):
+        cands = list(dict.fromkeys([cur[:i] + cur[i + 1:] for i in range(len(cur))]
+                                   + [cur[:i] + cur[i + 2:] for i in range(len(cur) - 1)]))
+        if not cands:
+            break
+        cases, codes, errs, _ = check_env([dict(job, specs=cands)], tag="c19es")
+        if errs:
+            break
+        nxt = next((sp for (_, sp, rt, _), k in zip(cases, codes) if rt == route and k >= 2), None)
+        if nxt is None:
+            break
+        cur = nxt
+    return cur
+
+
+def env_part(ctx, out):
+    rng = ctx.rng
+    if ctx.replay:
+        rp = ctx.replay["replay"]
+        jobs = [{"style": rp["style"], "term": rp["term"], "env": rp["env"], "specs": [rp["spec"]]}]
+        only_route = rp.get("route")
+    else:
+        only_route = None
+        envs = ENVS_QUICK if ctx.quick else ENVS_ALL
+        jobs = []
+        for st in STYLES:
+            if ctx.quick:
+                terms = [ENV_TERMS[0], rng.choice(ENV_TERMS[1:])]
+            else:
+                terms = ENV_TERMS + [[rng.randrange(4, 160), rng.randrange(3, 70)] for _ in range(2)]
+            for term in terms:
+                specs = env_specs(rng, st, term, 8 if ctx.quick else 60)
+                for env in envs:     # the SAME specifiers in every environment
+                    jobs.append({"style": st, "term": term, "env": env, "specs": specs})
+    cases, codes, errs, anomalies = check_env(jobs)
+    out["_env_samples"] = [f"{j['style']}:{sp!r} [{env_name(j['env'])}; terminal {j['term'][0]}x{j['term'][1]}; {ROUTE_NAMES[rt]}]"
+                           for j, sp, rt, _ in cases[len(cases) // 2:len(cases) // 2 + 3]]
+    out["errors"] += errs
+    out["evaluations"] += len(cases)
+    for job, spec, what in anomalies:
+        out["failures"].append({"signature": core.sig({"spec": spec, "anomaly": what.split(":")[0], "tty": job["env"]}),
+                                "what": f"{job['style']}, {env_name(job['env'])}: spec {spec!r}: {what}",
+                                "replay": {"kind": "env", "style": job["style"], "spec": spec, "term": job["term"],
+                                           "env": job["env"], "route": 0, "anomaly": what}})
+    hist_env, hist_rel = {}, {"explicit width > terminal width": 0, "explicit width = terminal width": 0,
+                              "explicit width < terminal width": 0, "width absent or zero": 0,
+                              "explicit height > terminal height": 0, "explicit height <= terminal height": 0,
+                              "height absent or zero": 0, "rejected": 0}
+    by_key = {}
+    for (job, spec, rt, o), c in zip(cases, codes):
+        e = "".join(map(str, job["env"]))
+        hist_env[f"in/out/err={e}"] = hist_env.get(f"in/out/err={e}", 0) + 1
+        by_key.setdefault((job["style"], tuple(job["term"]), spec, rt), {})[e] = c
+        if rt == 0 and o["k"] == 0 and o.get("x"):
+            m = re.match(r"[<|>]?(\d*)(?:\.[-^_]?(\d*))?", spec)
+            w, h = (int(m.group(1)) if m.group(1) else 0), (int(m.group(2)) if m.group(2) else 0)
+            tc, tl = job["term"]
+            hist_rel["width absent or zero" if w == 0 else "explicit width > terminal width" if w > tc else
+                     "explicit width = terminal width" if w == tc else "explicit width < terminal width"] += 1
+            hist_rel["height absent or zero" if h == 0 else "explicit height > terminal height" if h > tl else
+                     "explicit height <= terminal height"] += 1
+        elif rt == 0 and o["k"] != 0:
+            hist_rel["rejected"] += 1
+    out["histogram"]["environment_cases_by_streams_on_terminal"] = hist_env
+    out["histogram"]["environment_format_cases_by_size_relation"] = hist_rel
+    out["histogram"]["environment_terminal_sizes"] = sorted({f"{j['term'][0]}x{j['term'][1]}" for j in jobs})
+    failing = []
+    for (job, spec, rt, o), c in zip(cases, codes):
+        if only_route is not None and rt != only_route:
+            continue
+        if c >= 2:
+            failing.append((job, spec, rt, o, c))
+        elif c == 1:
+            out["mismatches"].append({"what": "environment case differs from the implementation model only",
+                                      "style": job["style"], "spec": spec, "term": job["term"], "env": job["env"],
+                                      "route": rt, "observed": o})
+    out["extra"]["environment_failing_cases_seen"] = len(failing)
+    # shortest specifier first; the environment closest to "everything on a pipe" last, so that a
+    # failure that needs a terminal is reported with one
+    failing.sort(key=lambda f: (len(f[1]), f[1], f[2], -sum(f[0]["env"]), f[0]["term"]))
+    seen = set()
+    for job, spec, rt, o, c in failing:
+        if len(seen) >= 3:
+            break
+        small = spec
+        if not ctx.replay and len(spec) > 2:
+            small = shrink_env(job, spec, rt)
+        if (small, rt) in seen:
+            continue
+        seen.add((small, rt))
+        if small != spec:
+            cs, ks, _, _ = check_env([dict(job, specs=[small])], tag="c19er")
+            hit = next(((x[3], k) for x, k in zip(cs, ks) if x[2] == rt), None)
+            if hit:
+                o, c = hit
+        others = by_key.get((job["style"], tuple(job["term"]), spec, rt), {})
+        ok_in = sorted(e for e, k in others.items() if k == 0)
+        note = (f"; the specifier {spec!r} it was shrunk from agrees with the documentation in the environments "
+                f"in/out/err = {ok_in}" if ok_in else "")
+        out["failures"].append(env_failure(job, small, rt, o, c, note))
+    return {(j["style"], sp, "".join(map(str, j["env"])), tuple(j["term"]), rt) for j, sp, rt, _ in cases}
+
+
 def run(ctx):
     rng = ctx.rng
     out = {"failures": [], "mismatches": [], "errors": [], "histogram": {}, "extra": {}, "evaluations": 0, "_confirm": []}
     try:
-        reps, refused = read_gen()
+        reps, refused, table = read_gen()
     except Exception as e:
         return {"errors": [f"cannot read coq/gen/Regexes.v: {e}"], "corr_name": "C19", "evaluations": 0,
                 "distinct_nontrivial": 0, "rule": "", "samples": [], "histogram": {}, "mismatches": [], "failures": []}
     first = [chr(r[0]) for r in reps]
     both = [chr(c) for r in reps for c in r]
 
-    if ctx.replay:
+    env_replay = bool(ctx.replay) and ctx.replay["replay"].get("kind") == "env"
+    if env_replay:
+        triples, acc_cases, samples = [], [], []
+    elif ctx.replay:
         rp = ctx.replay["replay"]
         triples = [(rp["style"], rp["spec"], rp.get("term", [80, 30]))]
         acc_cases, samples = [], []
@@ -417,7 +680,7 @@ def run(ctx):
             for st2 in (STYLES if st == "main" else [st]):
                 out["_confirm"].append((st2, s, [80, 30]))
         # 1. exhaustive
-        acc_cases = exhaustive(ctx, reps, out)
+        acc_cases = exhaustive(ctx, reps, out, table)
         # 2. cases
         triples = []
         cat = {}
@@ -426,7 +689,7 @@ def run(ctx):
                 triples.append((st, sp, [80, 30]))
                 cat["corpus"] = cat.get("corpus", 0) + 1
         n = 200 if ctx.quick else 3000
-        edit_alpha = both + list("08 xZ")
+        edit_alpha = both + list("08 xZ\r\t")
         for st in STYLES:
             for i in range(n):
                 term = TERMS[0] if i % 2 == 0 else rng.choice(TERMS)
@@ -499,6 +762,8 @@ def run(ctx):
             o, c = ob[0], cs[0]
         out["failures"].append(failure_of(st, small, tm, o, c))
     out["extra"]["failing_specifiers_seen"] = len(failing)
+    # 4. the same interpretation in every process environment
+    env_distinct = env_part(ctx, out) if (env_replay or not ctx.replay) else set()
     if out["extra"].get("outcome_counts_differ_from_documented_grammar") and not out["failures"]:
         out["errors"].append("the numbers of accepted / StyleError / ValueError strings differ from the documented "
                              "grammar's but no individual failing specifier was confirmed")
@@ -512,16 +777,24 @@ def run(ctx):
     return {
         "corr_name": "format(image, spec) on BlockImage/KittyImage/ITerm2Image == FmtSpec model == documented grammar and meaning",
         "evaluations": out["evaluations"],
-        "distinct_nontrivial": len(distinct),
+        "distinct_nontrivial": len(distinct) + len(env_distinct),
         "rule": ("exhaustive: " + out["extra"].get("exhaustive_bound", "(replay)") + "; accepted sets compared as class words and "
                  "ValueError/StyleError counts per length compared inside Coq with the model and with the documented grammar; "
                  "no rejected specifier may reach the renderer or change an attribute.  Cases: corpus of boundary specifiers, "
                  "every accepted string of the enumeration, random sentences / near-sentences (one or two edits), terminal "
                  "sizes 80x30, 100x50, 12x5, 3x3: outcome class, arguments reaching _format_render/_render_image, and "
                  "format() == draw() with the documented-equivalent parameters (draw() not applicable when the padding width "
-                 "exceeds the terminal width).  Non-trivial (counted): distinct (style, specifier) pairs judged individually "
-                 "inside Coq, i.e. sentences and near-sentences — the bulk of the enumeration (rejected strings) is not counted."),
-        "samples": samples + [f"{st}:{sp!r}" for st, sp, _, _ in acc_cases[:3]],
+                 "exceeds the terminal width).  Environments: the same specifiers (explicit padding sizes below / at / above "
+                 "the terminal size, absent and zero, all alignment pairs, random sentences and near-sentences) through "
+                 "format(), ImageIterator(format_spec=) and str() in child processes whose stdin/stdout/stderr are "
+                 + ("4 combinations" if ctx.quick else "all 8 combinations") + " of pipe and pseudo-terminal (window size = the "
+                 "case's terminal size; the library's own get_terminal_size() in force): outcome class, geometry measured on "
+                 "the returned string, equality with the explicit-parameter route (_format_render(_render_image(..), "
+                 "*_check_formatting(..))), judged inside Coq against FmtEnv.impl_format in that environment and against the "
+                 "documented geometry.  Non-trivial (counted): distinct (style, specifier) pairs judged individually "
+                 "inside Coq, i.e. sentences and near-sentences, plus distinct (style, specifier, environment, terminal size, "
+                 "route) environment cases — the bulk of the enumeration (rejected strings) is not counted."),
+        "samples": samples + [f"{st}:{sp!r}" for st, sp, _, _ in acc_cases[:3]] + out.get("_env_samples", []),
         "histogram": out["histogram"],
         "mismatches": out["mismatches"],
         "failures": out["failures"],
@@ -532,6 +805,10 @@ def run(ctx):
             "group 10 of _FORMAT_SPEC is the text after the first '+' (the specifier parses unambiguously); the scanner "
             "FmtSpec.parse yields the groups — validated on every accepted string of the enumeration and on the cases",
             "terminal size: at least 1 column and 3 lines (for 'absent = terminal width / terminal height minus two')",
+            "environment theorems: the image's rendered size is at least 1x1; what a process can learn about its "
+            "surroundings is modelled as (reported terminal size, which of stdin/stdout/stderr are terminals) — other "
+            "inputs (environment variables, the terminal's identity) are exercised only as far as the child processes "
+            "of the correspondence fix them (COLUMNS/LINES = the terminal size, queries disabled)",
             "z-index digits: the documentation says 'integer'; read as what int() accepts (Unicode decimal digits)",
             "a threshold '.ddd' denotes the double nearest to the decimal (checked to 2^-54); '#.99999999999999999999' "
             "is 1.0 as a double, which draw(alpha=) would refuse — not exercised, not counted as a violation",
@@ -540,6 +817,10 @@ def run(ctx):
             "tx_regex.py: CPython's re._parser + the translation of its parse tree to ranges (the class table it emits is "
             "re-checked in Coq)",
             "impl driver: instance-level wrappers of _format_render/_render_image; draw() output captured from sys.stdout",
+            "environment driver (impl_c19env.py): pty.openpty + TIOCSWINSZ give the child a terminal of the stated size; "
+            "the child reports isatty() of its streams, utils._tty_fd and get_terminal_size(), which the plugin compares "
+            "with the requested environment (a difference is an infrastructure error); the measurement of the geometry "
+            "locates the primary render (obtained through the explicit-parameter route) in the returned string",
         ],
         "extra": out["extra"],
     }
